@@ -12,6 +12,8 @@ package main
 //  2. TABLES.  The composite literals of `fmtCode` (map[byte]string) and `colors` (map[string]string, keys
 //     are the package's colour constants, resolved to their string values) in SOURCE ORDER, as byte lists,
 //     and the regular expression of `fmtPat`.
+//  4. INDEX / SLICE SITES of ClearString, String and TransCtrlSeq (type site17): every expression x[i] / x[lo:hi] with
+//     the conditions that enclose it (the bounds guards), for the "rendering never panics" clause.
 //  3. FUNCTION SKELETONS (type cstmt17): Message.ClearString / String, TransCtrlSeq, Text, Message.ReadFrom /
 //     WriteTo / TagType / MarshalNBT / UnmarshalNBT, nbtArgs, TranslateArgs.UnmarshalNBT / UnmarshalJSON,
 //     JsonMessage.ReadFrom / WriteTo, Message.MarshalJSON / UnmarshalJSON, Type.ReadFrom / WriteTo.  Control
@@ -40,7 +42,8 @@ import (
 type c17err struct{ msg string }
 
 type c17ctx struct {
-	fset *token.FileSet
+	fset    *token.FileSet
+	siteAcc []string // index / slice sites of the body being walked, in source order
 }
 
 func (c *c17ctx) fail(n ast.Node, f string, a ...any) {
@@ -268,6 +271,98 @@ func (c *c17ctx) stmt(s ast.Stmt, ind string) string {
 	}
 	c.fail(s, "unknown statement %T", s)
 	return ""
+}
+
+// ---------------------------------------------------------------- index / slice sites
+
+func c17with(guards []string, g string) []string { return append(append([]string{}, guards...), g) }
+
+// siteExprs renders every IndexExpr / SliceExpr below n (an expression or a simple statement) with the
+// conditions that enclose it; a function literal is entered with the extra guard `func`
+func (c *c17ctx) siteExprs(fn string, n ast.Node, guards []string) {
+	if n == nil || (reflect.ValueOf(n).Kind() == reflect.Ptr && reflect.ValueOf(n).IsNil()) {
+		return
+	}
+	ast.Inspect(n, func(m ast.Node) bool {
+		switch x := m.(type) {
+		case *ast.FuncLit:
+			c.siteStmts(fn, x.Body.List, c17with(guards, "func"))
+			return false
+		case *ast.IndexExpr:
+			c.siteAcc = append(c.siteAcc, fmt.Sprintf("Site %s \"index\" %s %s \"\" %s", c17q(fn), c17q(c.text(x.X)), c17q(c.text(x.Index)), c17qlist(guards)))
+		case *ast.SliceExpr:
+			if x.Slice3 {
+				c.fail(x, "three-index slice")
+			}
+			lo, hi := "", ""
+			if x.Low != nil {
+				lo = c.text(x.Low)
+			}
+			if x.High != nil {
+				hi = c.text(x.High)
+			}
+			c.siteAcc = append(c.siteAcc, fmt.Sprintf("Site %s \"slice\" %s %s %s %s", c17q(fn), c17q(c.text(x.X)), c17q(lo), c17q(hi), c17qlist(guards)))
+		}
+		return true
+	})
+}
+
+func (c *c17ctx) siteStmts(fn string, list []ast.Stmt, guards []string) {
+	for _, s := range list {
+		switch x := s.(type) {
+		case *ast.IfStmt:
+			c.siteExprs(fn, x.Init, guards)
+			c.siteExprs(fn, x.Cond, guards)
+			cond := c.text(x.Cond)
+			c.siteStmts(fn, x.Body.List, c17with(guards, cond))
+			switch e := x.Else.(type) {
+			case nil:
+			case *ast.BlockStmt:
+				c.siteStmts(fn, e.List, c17with(guards, "!("+cond+")"))
+			case *ast.IfStmt:
+				c.siteStmts(fn, []ast.Stmt{e}, c17with(guards, "!("+cond+")"))
+			default:
+				c.fail(x.Else, "unknown else branch %T", x.Else)
+			}
+		case *ast.SwitchStmt:
+			c.siteExprs(fn, x.Init, guards)
+			c.siteExprs(fn, x.Tag, guards)
+			for _, cl := range x.Body.List {
+				cc := cl.(*ast.CaseClause)
+				var ls []string
+				for _, l := range cc.List {
+					c.siteExprs(fn, l, guards)
+					ls = append(ls, c.text(l))
+				}
+				c.siteStmts(fn, cc.Body, c17with(guards, "case "+strings.Join(ls, ", ")))
+			}
+		case *ast.TypeSwitchStmt:
+			c.siteExprs(fn, x.Assign, guards)
+			for _, cl := range x.Body.List {
+				cc := cl.(*ast.CaseClause)
+				var ls []string
+				for _, l := range cc.List {
+					ls = append(ls, c.text(l))
+				}
+				c.siteStmts(fn, cc.Body, c17with(guards, "case "+strings.Join(ls, ", ")))
+			}
+		case *ast.RangeStmt:
+			c.siteExprs(fn, x.X, guards)
+			head := "range " + c.text(x.X)
+			if x.Key != nil {
+				k := c.text(x.Key)
+				if x.Value != nil {
+					k += ", " + c.text(x.Value)
+				}
+				head = k + " " + x.Tok.String() + " " + head
+			}
+			c.siteStmts(fn, x.Body.List, c17with(guards, head))
+		case *ast.ExprStmt, *ast.AssignStmt, *ast.IncDecStmt, *ast.DeclStmt, *ast.ReturnStmt:
+			c.siteExprs(fn, s, guards)
+		default:
+			c.fail(s, "unknown statement %T", s)
+		}
+	}
 }
 
 // ---------------------------------------------------------------- struct tables
@@ -545,6 +640,17 @@ func genC17(repo string) (res string, err error) {
 		}
 		fmt.Fprintf(&out, "(* chat/%s *)\nDefinition %s : cfun17 :=\n  (%s,\n   %s).\n\n", fn.file, coq, c17q(sig), c17block(body, "   "))
 	}
+	// 4. the index / slice expressions of the renderers with their enclosing conditions
+	for _, fn := range c17funcs {
+		if fn.name != "String" && fn.name != "ClearString" && fn.name != "TransCtrlSeq" {
+			continue
+		}
+		fd := findFunc([]*ast.File{files[fn.file]}, fn.recv, fn.name)
+		c.siteStmts(fn.name, fd.Body.List, nil)
+	}
+	out.WriteString("(* every index / slice expression of ClearString, String and TransCtrlSeq (what can panic with an\n")
+	out.WriteString("   out-of-range error), with the conditions that enclose it *)\n")
+	fmt.Fprintf(&out, "Definition chat_render_sites : list site17 :=\n  %s.\n", c17block(c.siteAcc, "  "))
 	return out.String(), nil
 }
 
